@@ -12,7 +12,7 @@ def run(ver):
     binp = core.cargo_build("vh")
     for frames, maxlen, maxpend, maxerr, maxreads in CONFIGS[ver.tier]:
         tag = f"mc_c15_{frames}_{maxlen}_{maxpend}_{maxerr}_{maxreads}"
-        res = core.run_tlc("MC_C15", "MC_C15.cfg", wd, tag=tag, timeout=3000,
+        res = core.run_tlc("MC_C15", "MC_C15.cfg", wd, tag=tag, timeout=3000, coverage=True,
                            consts={"Frames": "<- " + frames, "MaxLen": str(maxlen), "MaxPend": str(maxpend),
                                    "MaxErr": str(maxerr), "MaxReads": str(maxreads)})
         core.tlc_failure(res, tag)
